@@ -3015,16 +3015,21 @@ void notify_no_command () {
       /* hold the reference on the value stack: error recovery unwinds it,
        * which it does not do for the command giver stack */
       push_object (giver);
+      /* The function may call notify_fail() itself, which releases what is registered:
+       * take it over first (the stack owns the reference now, also through an error). */
+      command_giver->interactive->iflags &= ~NOTIFY_FAIL_FUNC;
+      command_giver->interactive->default_err_message.s = 0;
+      push_refed_funp (p.f);
       v = call_function_pointer (p.f, 0);
       command_giver = giver;
-      pop_stack ();
-      free_funp (p.f);
+      pop_stack ();             /* the function */
+      pop_stack ();             /* the giver */
       if (command_giver && command_giver->interactive)
         {
           if (v && v->type == T_STRING)
             tell_object (command_giver, v->u.string);
-          command_giver->interactive->iflags &= ~NOTIFY_FAIL_FUNC;
-          command_giver->interactive->default_err_message.s = 0;
+          /* nothing stays registered after a failure has been reported */
+          clear_notify (command_giver->interactive);
         }
     }
   else
